@@ -288,7 +288,7 @@ def check_filter(c: dict, o: dict) -> list:
     s = c["s"]
     keys = tuple(c["keys"])
     res: list = []
-    sig = dict(_feat(s), check="filtered", nkeys=len(keys),
+    sig = dict(check="filtered", ders=bool(s["ders"]),
                dup_values_kept=any(len(set(it["v"])) < len(it["v"]) and it["k"] in keys for it in s["items"]),
                sweep_empty=any(not it["v"] for it in s["items"]),
                dropped_empty=any(not it["v"] and it["k"] not in keys for it in s["items"]))
